@@ -62,6 +62,16 @@ func closedA(a []byte) {
 	}
 }
 
+// tokenSeq: n positions, each a solver-enumerated choice among the \x1f-separated tokens.
+func tokenSeq(toks string, n int, name string) []byte {
+	ts := splitN(toks, 0x1f)
+	var out []byte
+	for i := 0; i < n; i++ {
+		out = append(out, ts[vp.Concrete(vp.IntRange(name, 0, len(ts)-1))]...)
+	}
+	return out
+}
+
 // H_c09_indep: conv(A ⊕ blank ⊕ "# h" ⊕ blank ⊕ B) == conv(A) ⊕ "<h1>h</h1>\n" ⊕ conv(B).
 func H_c09_indep() {
 	m := WarmMD(vp.ParamStr("cfg", ""))
@@ -69,12 +79,16 @@ func H_c09_indep() {
 	if s := vp.ParamStr("seedA", ""); s != "" {
 		// A is a corpus document with a window; B free
 		a = windowed(s, vp.ParamInt("posA", 0), vp.ParamInt("wA", 0), "a")
+	} else if t := vp.ParamStr("tokensA", ""); t != "" {
+		a = tokenSeq(t, vp.ParamInt("an", 1), "ta")
 	} else {
 		a = vp.Bytes("a", vp.ParamInt("an", 1))
 		alphaAssume(a, vp.ParamStr("alphaA", ""))
 	}
 	if s := vp.ParamStr("seedB", ""); s != "" {
 		b = windowed(s, vp.ParamInt("posB", 0), vp.ParamInt("wB", 0), "b")
+	} else if t := vp.ParamStr("tokensB", ""); t != "" {
+		b = tokenSeq(t, vp.ParamInt("bn", 1), "tb")
 	} else {
 		b = vp.Bytes("b", vp.ParamInt("bn", 1))
 		alphaAssume(b, vp.ParamStr("alphaB", ""))
